@@ -218,12 +218,12 @@ def run_scenario(name, checker):
 
             class Loader:
                 @dec
-                def start(self, data: Float[A, "m d"]) -> Float[A, "d"]:
+                def start(self, data: Float[A, "m d"]) -> Float[A, "n"]:      # n: a name of its own here (the row length), also used by rows()
                     self.it = rows(data)
                     return next(self.it)
 
                 @dec
-                def more(self, scale: Float[A, "k"]) -> Float[A, "d"]:
+                def more(self, scale: Float[A, "d"]) -> Float[A, "n"]:
                     return next(self.it)
             ld = Loader()
             for step in (lambda: ld.start(np.zeros((3, 2), "float32")).shape, lambda: ld.more(np.zeros((5,), "float32")).shape,
